@@ -227,6 +227,13 @@ pub struct SimCfg {
     pub wall_step_rate: f64,
     #[serde(default)]
     pub wall_step_ns: u64,
+    /// level of the logger installed in the process for this run (0 = none, 1 error .. 5 trace): the `log`
+    /// facade's global logger, as RUST_LOG=debug or an embedding application would set it
+    #[serde(default)]
+    pub log_level: u8,
+    /// simulated time that passes between two run() calls on the same application (the application sits idle)
+    #[serde(default)]
+    pub idle_between_runs_ns: u64,
 }
 
 impl Default for SimCfg {
@@ -254,6 +261,8 @@ impl Default for SimCfg {
             spurious_wake_rate: 0.0,
             wall_step_rate: 0.0,
             wall_step_ns: 0,
+            log_level: 0,
+            idle_between_runs_ns: 0,
         }
     }
 }
@@ -393,6 +402,8 @@ pub struct Stats {
     pub getrandom_calls: u64,
     pub threads: u64,
     pub sim_time_ns: u64,
+    #[serde(default)]
+    pub idle_ns: u64,
     pub faults: BTreeMap<String, u64>,
     pub trace_hash: u64,
     pub sched_hash: u64,
@@ -1146,8 +1157,16 @@ pub fn finish() -> Box<Sim> {
     TID.with(|c| c.set(usize::MAX));
     drop(g);
     let mut s = unsafe { Box::from_raw(p) };
-    s.stats.sim_time_ns = s.clock_ns;
+    s.stats.sim_time_ns = s.clock_ns - s.stats.idle_ns; // (idle gaps between run() calls are not "time covered")
     s
+}
+
+/// the system sits idle: simulated time passes, nothing else happens
+pub fn advance_clock(ns: u64) {
+    with(|s| {
+        s.clock_ns += ns;
+        s.stats.idle_ns += ns;
+    })
 }
 
 pub fn yield_now() {
